@@ -214,11 +214,11 @@ theorem convertSeqOf_eq (c : Bool) (k : Interval.Kind) (l : List Int) :
     convertSeqOf (modelPrims c) k l = convertSeq k l := by
   cases k
   · simp only [convertSeqOf, convert_time_seq, convertSeq, modelPrims]
-    by_cases h : 1 ≤ l.length ∧ l.length ≤ 4 <;> simp [h]
+    by_cases h1 : 1 ≤ l.length <;> by_cases h2 : l.length ≤ 4 <;> simp [h1, h2]
   · simp only [convertSeqOf, convert_date_seq, convertSeq, modelPrims]
     by_cases h : l.length = 2 <;> simp [h]
   · simp only [convertSeqOf, convert_datetime_seq, convertSeq, modelPrims]
-    by_cases h : 5 ≤ l.length ∧ l.length ≤ 7 <;> simp [h]
+    by_cases h1 : 5 ≤ l.length <;> by_cases h2 : l.length ≤ 7 <;> simp [h1, h2]
 
 /-! ### `convert_time_str` -/
 
